@@ -53,6 +53,121 @@ def _const_literal(e):
     return False
 
 
+# ------------------------------------------------------------------------------------------------ 0. match statements
+def lower_match_statements(tree):
+    """`match subject: case …` read as the if / elif chain it abbreviates, for the pattern forms that have one:
+        case Cls(attr=name, …)      ->  if isinstance(s, Cls): name = s.attr; …
+        case A() | B() [as name]    ->  if isinstance(s, (A, B)): [name = s]
+        case <constant> / A.B       ->  if s == <value>
+        case name / case _          ->  else: [name = s]
+    with or without a guard (`if g` after the bindings is read as a nested `if`, the later cases going to its else —
+    only done when the guarded case is the last but one, or has no bindings). A subject that is not a plain name or
+    attribute chain is bound to a temporary first. Returns the number of match statements lowered; any other pattern
+    form leaves the statement as it is."""
+    count = [0]
+
+    def located(new, at):
+        for y in ast.walk(new):
+            if isinstance(y, (ast.expr, ast.stmt)) and getattr(y, "lineno", None) is None:
+                y.lineno, y.col_offset = at.lineno, at.col_offset
+                y.end_lineno, y.end_col_offset = getattr(at, "end_lineno", at.lineno), getattr(at, "end_col_offset", 0)
+        return new
+
+    def pattern(p, subj):
+        """(test expr or None for irrefutable, [binding statements]) or None"""
+        if isinstance(p, ast.MatchAs):
+            if p.pattern is None:
+                return None, ([ast.Assign(targets=[ast.Name(id=p.name, ctx=ast.Store())], value=clone(subj))] if p.name else [])
+            r = pattern(p.pattern, subj)
+            if r is None:
+                return None
+            t, b = r
+            return t, b + [ast.Assign(targets=[ast.Name(id=p.name, ctx=ast.Store())], value=clone(subj))]
+        if isinstance(p, ast.MatchValue):
+            return ast.Compare(left=clone(subj), ops=[ast.Eq()], comparators=[clone(p.value)]), []
+        if isinstance(p, ast.MatchSingleton):
+            return ast.Compare(left=clone(subj), ops=[ast.Is()], comparators=[ast.Constant(value=p.value)]), []
+        if isinstance(p, ast.MatchClass):
+            if p.patterns:
+                return None
+            binds = []
+            for a, sp in zip(p.kwd_attrs, p.kwd_patterns):
+                if not (isinstance(sp, ast.MatchAs) and sp.pattern is None):
+                    return None
+                if sp.name:
+                    binds.append(ast.Assign(targets=[ast.Name(id=sp.name, ctx=ast.Store())],
+                                            value=ast.Attribute(value=clone(subj), attr=a, ctx=ast.Load())))
+            return ast.Call(func=ast.Name(id="isinstance", ctx=ast.Load()), args=[clone(subj), clone(p.cls)], keywords=[]), binds
+        if isinstance(p, ast.MatchOr):
+            classes = []
+            for alt in p.patterns:
+                if not (isinstance(alt, ast.MatchClass) and not alt.patterns and not alt.kwd_attrs):
+                    return None
+                classes.append(clone(alt.cls))
+            return ast.Call(func=ast.Name(id="isinstance", ctx=ast.Load()),
+                            args=[clone(subj), ast.Tuple(elts=classes, ctx=ast.Load())], keywords=[]), []
+        return None
+
+    def lower(m):
+        subj = m.subject
+        pre = []
+        b = subj
+        while isinstance(b, ast.Attribute):
+            b = b.value
+        if not isinstance(b, ast.Name):
+            pre = [ast.Assign(targets=[ast.Name(id="_match_subject", ctx=ast.Store())], value=subj)]
+            subj = ast.Name(id="_match_subject", ctx=ast.Load())
+        arms = []
+        for c in m.cases:
+            r = pattern(c.pattern, subj)
+            if r is None:
+                return None
+            arms.append((r[0], r[1], c.guard, c.body))
+        chain = None
+        for i in range(len(arms) - 1, -1, -1):
+            t, binds, guard, body = arms[i]
+            rest = chain or []
+            if guard is not None:
+                if binds and rest and not (t is None):
+                    return None
+                inner = [ast.If(test=guard, body=body, orelse=rest)] if (binds or t is None) else None
+                if inner is None:
+                    t = ast.BoolOp(op=ast.And(), values=[t, guard])
+                    arm_body = binds + body
+                else:
+                    arm_body = binds + inner
+                    if t is not None and rest:
+                        return None
+            else:
+                arm_body = binds + body
+            if t is None:
+                chain = arm_body
+            else:
+                chain = [ast.If(test=t, body=arm_body, orelse=rest)]
+        return [located(x, m) for x in pre + (chain or [ast.Pass()])]
+
+    def rewrite(stmts):
+        out = []
+        for st in stmts:
+            for field in ("body", "orelse", "finalbody"):
+                if isinstance(getattr(st, field, None), list) and not isinstance(st, ast.Match):
+                    setattr(st, field, rewrite(getattr(st, field)))
+            for h in getattr(st, "handlers", []):
+                h.body = rewrite(h.body)
+            if isinstance(st, ast.Match):
+                for c in st.cases:
+                    c.body = rewrite(c.body)
+                new = lower(st)
+                if new is not None:
+                    count[0] += 1
+                    out.extend(new)
+                    continue
+            out.append(st)
+        return out
+    tree.body = rewrite(tree.body)
+    return count[0]
+
+
 # ------------------------------------------------------------------------------------------------ 1. constants
 def substitute_constants(tree):
     """module-level `NAME = <literal>` bound exactly once, and class-level ones read as self.NAME / cls.NAME / Class.NAME"""
